@@ -4,6 +4,9 @@ Model of the Patricia half of sdk/python/symbolchain/symbol/Merkle.py (with Buff
 `deserialize_patricia_tree_nodes`, `prove_patricia_merkle`; and the specification side: a compact Patricia
 tree datatype, its node hashes, the proof path cut from a tree along a key, and the inverse of the deserializer.
 The hash is a parameter `H` (SHA3-256 in the SDK). Core Lean only.
+Every function here is pure: `nodeHash`, `provePatricia`, … are functions of the node contents they are given. The Python
+objects are mutable (`leaf.value`, `branch.links[i]`, `node.path` can be assigned); the correspondence check therefore also plays
+histories (hash/prove, edit in place, hash/prove again) and requires the answer of the model on the *current* contents.
 -/
 import SymbolVerif.Model.Sdk.Merkle
 namespace SymbolVerif.Sdk.Patricia
